@@ -1310,6 +1310,9 @@ def breaking_edits(rng, src):
     out.append((src.rstrip("\r\n") + "\nloop(zz,1)\r" + " ".join(["1"] * hdr_n) + "\nend loop\n", "loop header followed by a lone CR instead of a line break"))
     out.append((src.rstrip("\r\n") + "\nlet fx = %s;\n" % rng.choice(["randomize(4)", "iteX(1,2,3)", "signExtend(4,3)", "ran(4)", "it(1,2,3)", "random2(4)", "Random(4)", "ite_(1,2,3)", "signExt2(1,2)"]),
                 "a function name that extends / shortens / re-cases a built-in"))
+    out.append((src.rstrip("\r\n") + "\nlet oo = %s;\n" % rng.choice(["07777777777777777777777", "02000000000000000000000", "01000000000000000000000", "0o17", "0777777777777777777777777777"]), "an octal literal that does not fit in 64 bits (or is no literal at all)"))
+    out.append((src.rstrip("\r\n") + "\n" + " ".join(["bits(1,1,1)"] + ["0"] * max(ncols_of(lines[hdr_i]) - 1, 0)) + "\n", "bits with a surplus argument"))
+    out.append((src.rstrip("\r\n") + "\nlet sx = %s;\n" % rng.choice(["random(4,)", "ite(1,2,3,)", "random(,4)", "ite(1,,3)", "random()"]), "an empty argument in a call"))
     # a bare `end` as the very last token, with and without the final line break
     out.append((src.rstrip("\r\n") + "\nend", "end at top level as the last token (no final newline)"))
     out.append((src.rstrip("\r\n") + "\nend\n", "end at top level as the last token"))
@@ -3299,6 +3302,8 @@ def laziness_cases(prefix):
         exprs.append("(1/k) %s Q" % op)
         exprs.append("random(3) %s random(5)" % op)
         exprs.append("(random(7)+1) %s (random(2)+random(9))" % op)
+    exprs += ["Q - Q", "Q ^ Q", "Q = Q", "(Q+1) - (Q+1)", "k - (1/k)", "100-1-2-3-4-5-6-7-8", "1000/2/2/2/2/2/2/2/2/2", "1-2+3-4+5-6+7-8+9-10+11", "1<<1<<1<<1<<1<<1<<1<<1<<1<<1",
+              "3 * (4 / 3)", "7 - (3 - 1)", "64 / (4 * 2)", "17 % (5 % 3)", "1 << (2 >> 1)", "(1 << 2) >> 1", "2 * (3 % 2)", "k + (Q - Q)"]
     exprs += ["0 * (1/0)", "(1/0) * 0", "0 & (1%0)", "0 / k", "0 % k", "0 << (1/k)", "0 >> Q", "k * Q", "Q * k", "k & Q",
               "ite(1/k,5,5)", "ite(Q,5,5)", "ite(k,1/k,3)", "ite(1,3,1/k)", "ite(EN,Q,7)", "ite(EN,7,Q)", "ite(k,Q,Q)", "ite(1,7,Q)", "ite(0,Q,7)",
               "ite(random(2)-1,random(3),random(4))", "ite(k,random(3),4)+random(5)", "random(random(3)+2)", "signExt(1/k,Q)", "signExt(k,k)",
@@ -3436,3 +3441,63 @@ def c11_letter_case_cases(seed, tier):
 
 for _p in ("C11", "C06", "C04"):
     _extend(_p, c11_letter_case_cases, "plus names that differ from a signal's name in letter case only (read, column, C column, _OUT suffix)")
+
+
+def round11_shapes(prefix):
+    """fixed shapes of round 11: let Q = Q (an output frozen into a variable); a name let-bound only in a while body that
+    never runs, read afterwards (it reads the output); a column that is both clocked with C and read in an expression; a
+    header wider than the signal list with C / X in a late driving column; more than 32 bindings in scope with shadowing;
+    a row whose bits field and a field to its right both draw; a declared comparison with an expected value above 1; two
+    identical consecutive clock rows (static and dynamic); a counter rewound to -1 once"""
+    cases = []
+    k = 0
+    def add(src, sigs, layout, table, kinds=("run",), **kw):
+        nonlocal k
+        for kind in kinds:
+            c = {"id": "%s-r11-%d-%s" % (prefix, k, kind), "kind": kind, "src": src, "sigs": [dict(s_) for s_ in sigs], "layout": layout if kind == "run" else [], "table": table if kind == "run" else [],
+                 "echo": 0, "wdefault": k % 2, "faults": [], "max": 40, "seed": 3 + k, "cont": 1}
+            c.update(kw)
+            cases.append(c)
+        k += 1
+    AQ = [{"name": "A", "typ": "I", "bits": 8, "default": "0"}, {"name": "Q", "typ": "O", "bits": 8, "default": "-"}]
+    add("A Q\n1 X\nlet Q = Q;\n(Q) X\n(Q) X\nlet Q = Q;\n(Q+1) X\n", AQ, [1], [["1"], ["2"], ["3"], ["4"]])
+    add("A Q\n1 X\nwhile(0)\nlet Q = 9;\nend while\n(Q) X\nloop(i,Q)\n(i) X\nend loop\n(Q) X\n", AQ, [1], [["2"], ["3"], ["1"], ["2"]])
+    add("A Q\nlet z = 0;\nwhile(z)\nlet Q = 1;\nend while\n(Q+1) X\n2 X\n(Q+1) X\n", AQ, [1], [["5"], ["6"], ["7"]])
+    CK = [{"name": "K", "typ": "B", "bits": 1, "default": "0"}, {"name": "D", "typ": "I", "bits": 4, "default": "0"}, {"name": "Q", "typ": "O", "bits": 4, "default": "-"}]
+    add("K D Q K_out\nC 1 X X\n0 (K) X X\nC (K+1) X 1\n", CK, [2, 0], [["1", "1"], ["2", "0"]])
+    add("D Q K K_out\n1 X C X\n2 X X 1\n3 X C 0\n", CK, [2, 0], [["1", "1"], ["2", "0"]], kinds=("run", "static"))
+    add("Q K_out D K\nX X 1 C\nX 1 X X\nX X 2 C\n", CK, [2, 0], [["1", "1"], ["2", "0"]], kinds=("run", "static"))
+    many = "".join("let v%d = %d;\n" % (i, i) for i in range(40))
+    add("A Q\n" + many + "loop(v3,2)\nlet v7 = 100 + v3;\nlet v39 = 7;\n(v7) X\nend loop\n(v7+v39) X\n", AQ, [1], [["1"]])
+    A2 = [{"name": "A", "typ": "I", "bits": 1, "default": "0"}, {"name": "B", "typ": "I", "bits": 1, "default": "0"}, {"name": "C2", "typ": "I", "bits": 16, "default": "0"}, {"name": "Q", "typ": "O", "bits": 8, "default": "-"}]
+    add("A B C2 Q\nbits(2,random(4)) (random(1000)) X\n(random(1000)) bits(2,random(4)) X\nresetRandom;\nbits(2,random(4)) (random(1000)) X\n".replace("(random(1000)) bits(2,random(4)) X", "bits(1,random(2)) bits(1,random(2)) (random(9)) X"), A2, [3], [["1"]])
+    add("A Q V W\ndeclare V = Q < 3;\ndeclare W = !Q;\n1 X 3 2\n2 X 1 0\n3 X (0-1) 255\n", AQ, [1], [["1"], ["5"], ["0"]], kinds=("run",))
+    CL = [{"name": "CLK", "typ": "I", "bits": 1, "default": "0"}, {"name": "D", "typ": "I", "bits": 4, "default": "0"}, {"name": "Q", "typ": "O", "bits": 4, "default": "-"}]
+    add("CLK D Q\nC 1 X\nC 1 X\n0 1 X\nC 1 1\nC 1 1\n", CL, [2], [["1"]], kinds=("run", "static"))
+    add("A Q\nlet once = 0;\nloop(i,3)\n(i) X\nlet i = ite((i = 1) & !once, 0-1, i);\nlet once = once | (i < 0);\nend loop\n(9) X\n", AQ, [1], [["1"]])
+    add("A Q\n1 X\n2 X\nlet a = 1;\nlet b = a + 1;\n", AQ, [1], [["1"]])
+    BD = [{"name": "A", "typ": "I", "bits": 4, "default": "0"}, {"name": "IO", "typ": "B", "bits": 4, "default": "Z"}, {"name": "Q", "typ": "O", "bits": 4, "default": "-"}]
+    add("A IO_out Q\n(IO) X X\n1 (IO) X\n", BD, [1, 2], [["3", "1"]], kinds=("run", "static", "bind"))
+    add("A IO Q V\ndeclare V = IO + 1;\n1 Z X X\n", BD, [1, 2], [["3", "1"]], kinds=("run", "static"))
+    return cases
+
+
+for _p in ("C01", "C04", "C05", "C11", "C14", "C15", "C17", "C18", "C10", "C07"):
+    _extend(_p, (lambda pref: (lambda seed, tier: round11_shapes(pref)))(_p.lower()),
+            "plus fixed shapes of round 11 (an output frozen by let Q = Q; a name bound only in a while body that never runs; a column clocked and read; headers wider than the signal list; 40 bindings with shadowing; draws of bits fields; declared comparisons; identical consecutive clock rows; a counter rewound once; reads of bidirectional pins, static too)")
+
+
+def c09_unicode_number_texts(seed, tier):
+    """texts that start with a byte order mark (with an error further on, next to a multi-byte character), ASCII digits
+    continued by non-ASCII digits in every place a number can stand, other look-alikes of digits and of blanks"""
+    cases = []
+    k = 0
+    for t in ["\ufeffA B\n1 é)\n", "\ufeffA B\n1 1\n", "\ufeffA B\nlet a = 1é;\n", "A B\n\ufeff1 1\n", "\ufeff\ufeffA B\n1 1 1\n", "A B\n1２ 1\n", "A B\n1 1２\n", "A B\nlet a = 1２;\n", "A B\nloop(i,1２)\n1 1\nend loop\n",
+              "A B\nbits(1２,1) 1\n", "A B\nbits(1,1２) 1\n", "A B\nrepeat(1٣) 1 1\n", "A B\n(1٣) 1\n", "A B\n0x1２ 1\n", "A B\n0b1２ 1\n", "A B\n01２ 1\n", "A B\n1\u00a01\n", "A\u00a0B\n1 1\n", "A B\n1\u20071\n", "A B\n１ 1\n", "A B\n٣ 1\n"]:
+        cases.append({"id": "c09-unicodenum-%d" % k, "kind": "parse", "src": t})
+        k += 1
+    return cases
+
+
+for _p in ("C09", "C12", "C20"):
+    _extend(_p, c09_unicode_number_texts, "plus texts with a byte order mark and ASCII digits continued by non-ASCII digits in every place a number can stand")
